@@ -1425,6 +1425,71 @@ const VAR_TMPL_TEXTS: &[&str] = &[
     "(deftemplate t1 (x) (concat))(defsrc (t! t1 b))",
 ];
 
+// ------------------------------------------------------------------------------------ defvar reference graphs
+/// One configuration whose `defvar` items define `v0..v{n-1}`; `edges[i]` lists the variables that
+/// the value of `v{i}` refers to (any order of definition, so an edge to a larger index is a forward
+/// reference). `shape[i]` selects how the value is written:
+///   0 = `(multi a $x $y ..)`, 1 = a bare `$x` when there is exactly one edge (else as 0),
+///   2 = references nested two lists deep, 3 = `(concat $x .. )` (evaluated while the table is built:
+///   earlier variables are resolved to text, later ones stay `$name` text), 4 = `(concat "$" x)` (the
+///   reference is produced by `concat` and exists only in the stored value), 5 = as 0 with every
+///   reference twice. `split` = start a new `(defvar` item before these definitions.
+/// Every variable is then used in the layer, so an accepted table is also resolved by the loader.
+fn vargraph_text(n: usize, order: &[usize], edges: &[Vec<usize>], shape: &[u8], split: &[bool]) -> String {
+    const KEYS: &[&str] = &["a", "b", "c", "d", "e", "f", "g", "h"];
+    let mut s = String::from("(defvar");
+    for (k, &i) in order.iter().enumerate() {
+        if k > 0 && split[k] {
+            s.push_str(")\n(defvar");
+        }
+        let refs: Vec<String> = edges[i].iter().map(|j| format!("$v{j}")).collect();
+        let val = match shape[i] {
+            1 if refs.len() == 1 => refs[0].clone(),
+            2 => format!("(multi a (macro {} (b)) {})", refs.iter().take(1).cloned().collect::<Vec<_>>().join(" "), refs.iter().skip(1).map(|r| format!("(({r}))")).collect::<Vec<_>>().join(" ")),
+            3 => format!("(concat {} k)", refs.join(" ")),
+            4 if refs.len() == 1 => format!("(concat \"$\" v{})", edges[i][0]),
+            5 => format!("(multi a {} {})", refs.join(" "), refs.join(" ")),
+            _ => format!("(multi a {})", refs.join(" ")),
+        };
+        s.push_str(&format!(" v{i} {val}"));
+    }
+    s.push_str(")\n(defsrc");
+    for k in 0..n {
+        s.push_str(&format!(" {}", KEYS[k % KEYS.len()]));
+    }
+    s.push_str(")\n(deflayer base");
+    for k in 0..n {
+        s.push_str(&format!(" $v{k}"));
+    }
+    s.push_str(")\n");
+    s
+}
+
+/// the defvar-graph family: all 512 reference graphs on three variables (list values), and random
+/// graphs on 2..=7 variables with random definition order, value shapes and item boundaries; the
+/// edge density is drawn so that about half of the random graphs have a cycle
+fn vargraph_cases(r: &mut Rng, thorough: bool) -> Vec<(String, String)> {
+    let mut out = vec![];
+    for g in 0..512u32 {
+        let edges: Vec<Vec<usize>> = (0..3).map(|i| (0..3).filter(|j| g >> (3 * i + j) & 1 == 1).collect()).collect();
+        out.push((format!("vg:exh3:{g}"), vargraph_text(3, &[0, 1, 2], &edges, &[0, 0, 0], &[false; 3])));
+    }
+    for _ in 0..(if thorough { 12000 } else { 1500 }) {
+        let n = r.range(2, 7) as usize;
+        let mut order: Vec<usize> = (0..n).collect();
+        for k in (1..n).rev() {
+            order.swap(k, r.below(k as u64 + 1) as usize);
+        }
+        // expected out-degree between 0.2 and 1.0
+        let num = r.range(2, 10);
+        let edges: Vec<Vec<usize>> = (0..n).map(|_| (0..n).filter(|_| r.chance(num, 10 * n as u64)).collect()).collect();
+        let shape: Vec<u8> = (0..n).map(|_| if r.chance(1, 2) { r.below(2) as u8 } else { r.below(6) as u8 }).collect();
+        let split: Vec<bool> = (0..n).map(|_| r.chance(1, 4)).collect();
+        out.push((format!("vg:rnd:{n}"), vargraph_text(n, &order, &edges, &shape, &split)));
+    }
+    out
+}
+
 // ------------------------------------------------------------------------------------ generator
 const WRAP_SRC: &str = "(defsrc a b c)\n";
 const WRAP_LAYER: &str = "(deflayer base a b c)\n";
@@ -1632,5 +1697,13 @@ pub fn gen(tier: &str, seed: u64) -> Vec<String> {
         out.push(case_line('s', "fe:rnd", &t, &[]));
     }
     out.extend(crate::c03cov::gen_extra(tier, seed));
+
+    // 5. defvar reference graphs (own generator state, so the families above are unchanged): the cycle
+    // check of `parse_vars` against its model, accept/refuse and the table (Props/C03vars.lean)
+    let mut rv = Rng::new(seed ^ 0xC03_7A45);
+    for (tag, text) in vargraph_cases(&mut rv, thorough) {
+        let mode = if rv.chance(1, 8) { 'f' } else { 's' };
+        out.push(case_line(mode, &tag, &text, &[]));
+    }
     out
 }
